@@ -50,6 +50,7 @@ Move(g, d) ==
 StairLine(n) == [i \in 1 .. n + 1 |-> <<i \div 2, (i - 1) \div 2>>]
 RECURSIVE StairSteps(_, _)
 StairSteps(n, k) == IF k > n THEN <<>> ELSE << <<n - k + 1, k>>, <<n - k, k>> >> \o StairSteps(n, k + 1)
+Snake(w, h) == [k \in 1 .. (w + 1) * (h + 1) |-> LET r == (k - 1) \div (w + 1)  c == (k - 1) % (w + 1) IN <<IF r % 2 = 0 THEN c ELSE w - c, r>>]
 StairRing(n) == << <<0, 0>>, <<n, 0>> >> \o StairSteps(n, 1) \o << <<0, 0>> >>
 \* big operands (fixed), 8 x 8 frame
 Big == <<
@@ -68,6 +69,8 @@ Big == <<
     MPt(<< <<0, 0>>, <<8, 8>>, <<3, 5>> >>),
     Ln(<<0, 7>>, <<7, 0>>),
     LS(StairLine(140)), Poly(StairRing(70), << Rev(Sq(1, 1, 1)) >>),
+    \* a snake through every lattice point of 0..40 x 0..25 (1066 vertices with small coordinates: the exact rationals stay in 32 bits)
+    LS(Snake(40, 25)),
     \* holed shells that do not fill their bounding box: an operand in the empty corner is outside the polygon, not in a hole
     Poly(<< <<0, 0>>, <<9, 0>>, <<0, 9>>, <<0, 0>> >>, << Rev(Sq(1, 1, 2)) >>),                                            \* triangle
     Poly(<< <<0, 0>>, <<9, 0>>, <<9, 3>>, <<3, 3>>, <<3, 9>>, <<0, 9>>, <<0, 0>> >>, << Rev(Sq(1, 1, 1)) >>),              \* L
